@@ -225,7 +225,7 @@ theorem get_indep (reverse : Bool) (A : CRS K) (perm0 perm0' : Array Nat) (hn : 
     intro i hi1 hi2
     have := hp1.2 i (by rw [hn1, ← hI1.lab.hperm]; exact hi2)
     simpa [Array.getD, hi1, hi2] using this
-  simp only [get, getFuel, h0, h0'.1, Res.bind_ok, h1, h2]
+  simp only [get, getFuel, if_neg (by omega : ¬ A.nrows = 0), h0, h0'.1, Res.bind_ok, h1, h2]
   rw [e]
 
 end Amgcl.CMK
